@@ -3,7 +3,7 @@
 
 use crate::canon::{clip, Terminal};
 use crate::framework::Violation;
-use crate::session::mpd::{IdleTrigger, RespKind, UnitKind, UnitRecord};
+use crate::session::mpd::{IdleTrigger, RespKind, UnitRecord};
 use crate::session::net::Ev;
 use crate::session::plan::{Consumer, Cover, Op, Picture, Plan, PwVerdict};
 use crate::session::run::{ConnectOutcome, EventRec, OpRecord, OpResult, RunOutput, PROBE_ID};
@@ -900,7 +900,8 @@ pub fn expect_art(pic: &Picture, limit: usize) -> ArtExpect {
     match expect_art_first(pic) {
         ArtExpect::Some(b, m) => {
             // a later chunk request may fail: the first continuation offset at or above the
-            // threshold
+            // threshold (this is the prediction for a client that asks for one chunk after the
+            // other; `check_c17` itself goes by what the server actually answered)
             if let Some((threshold, code)) = pic.later_error {
                 let offs = request_offsets(b.len() as u64, limit, &pic.chunk_caps);
                 if offs.iter().any(|o| *o > 0 && *o >= threshold) {
@@ -911,6 +912,52 @@ pub fn expect_art(pic: &Picture, limit: usize) -> ArtExpect {
         }
         other => other,
     }
+}
+
+/// One picture request as the server saw it (stand-alone or as a member of a command list).
+#[derive(Clone, Debug)]
+pub struct ArtReq {
+    pub embedded: bool,
+    pub offset: u64,
+    /// `None`: answered with data (or an empty reply); `Some(e)`: answered with this ACK
+    pub error: Option<crate::canon::CErr>,
+}
+
+/// The picture requests for `uri` the server executed, in order. Members of a command list
+/// that were never executed (they follow the failing member) are left out.
+pub fn art_requests(out: &RunOutput, uri: &str) -> Vec<ArtReq> {
+    let mut reqs = Vec::new();
+    for u in &out.units {
+        for (i, line) in u.lines.iter().enumerate() {
+            let Ok((word, args)) = crate::session::mpd::tokenize(line.as_bytes()) else {
+                continue;
+            };
+            let embedded = match word.as_str() {
+                "readpicture" => true,
+                "albumart" => false,
+                _ => continue,
+            };
+            if args.first().map(|a| a.as_slice()) != Some(uri.as_bytes()) {
+                continue;
+            }
+            let offset = args
+                .get(1)
+                .and_then(|a| std::str::from_utf8(a).ok())
+                .and_then(|a| a.parse::<u64>().ok())
+                .unwrap_or(u64::MAX);
+            let error = match &u.reply.error {
+                Some(e) if e.index as usize == i => Some(e.clone()),
+                Some(e) if (e.index as usize) < i => break, // not executed
+                _ => None,
+            };
+            reqs.push(ArtReq {
+                embedded,
+                offset,
+                error,
+            });
+        }
+    }
+    reqs
 }
 
 fn expect_art_first(pic: &Picture) -> ArtExpect {
@@ -979,7 +1026,21 @@ pub fn check_c17(plan: &Plan, out: &RunOutput) -> Option<Violation> {
                 format!("album_art({:?}) did not finish", uri),
             ));
         }
-        let exp = expect_art(pic, plan.binary_limit);
+        // the reference result: what is stored, unless the server answered one of the chunk
+        // requests it actually received with the injected "later chunk" error — which requests
+        // a client sends for the later chunks (one at a time, batched, ...) is its own business
+        let reqs = art_requests(out, &uri);
+        let exp = match expect_art_first(pic) {
+            ArtExpect::Some(b, m) => match reqs
+                .iter()
+                .filter_map(|r| r.error.as_ref())
+                .find(|e| e.message == "forced error on a later chunk")
+            {
+                Some(e) => ArtExpect::Err(e.code),
+                None => ArtExpect::Some(b, m),
+            },
+            other => other,
+        };
         if !art_matches(&exp, &op.result) {
             let clause = match (&exp, &op.result) {
                 (ArtExpect::Some(..), OpResult::Art(Some(_))) => "bytes_or_mime_differ",
@@ -1015,29 +1076,26 @@ pub fn check_c17(plan: &Plan, out: &RunOutput) -> Option<Violation> {
             return Some(Violation::new("C17", clause, detail));
         }
         // transcript
-        let units: Vec<&UnitRecord> = out
-            .units
-            .iter()
-            .filter(|u| match &u.kind {
-                UnitKind::ReadPicture { uri: x, .. } | UnitKind::AlbumArt { uri: x, .. } => *x == uri,
-                _ => false,
-            })
-            .collect();
-        let Some(first) = units.first() else {
+        let Some(first) = reqs.first() else {
             return Some(Violation::new(
                 "C17",
                 "transcript",
                 format!("album_art({:?}) finished but the server saw no request for it", uri),
             ));
         };
-        if !matches!(&first.kind, UnitKind::ReadPicture { offset: 0, .. }) {
+        if !(first.embedded && first.offset == 0) {
             return Some(Violation::new(
                 "C17",
                 "transcript_first_request",
-                format!("first request for {:?} was {:?}, expected readpicture at offset 0", uri, first.lines),
+                format!(
+                    "first request for {:?} was {} at offset {}, expected readpicture at offset 0",
+                    uri,
+                    if first.embedded { "readpicture" } else { "albumart" },
+                    first.offset
+                ),
             ));
         }
-        let used_albumart = units.iter().any(|u| matches!(u.kind, UnitKind::AlbumArt { .. }));
+        let used_albumart = reqs.iter().any(|r| !r.embedded);
         if used_albumart != art_uses_fallback(pic) {
             return Some(Violation::new(
                 "C17",
@@ -1051,38 +1109,63 @@ pub fn check_c17(plan: &Plan, out: &RunOutput) -> Option<Violation> {
             ));
         }
         for embedded in [true, false] {
-            let offs: Vec<u64> = units
+            let offs: Vec<u64> = reqs
                 .iter()
-                .filter_map(|u| match &u.kind {
-                    UnitKind::ReadPicture { offset, .. } if embedded => Some(*offset),
-                    UnitKind::AlbumArt { offset, .. } if !embedded => Some(*offset),
-                    _ => None,
-                })
+                .filter(|r| r.embedded == embedded)
+                .map(|r| r.offset)
                 .collect();
             if offs.is_empty() {
                 continue;
             }
-            if offs[0] != 0 || offs.windows(2).any(|w| w[1] <= w[0]) {
+            // with a server that hands out less than its chunk limit (outside the property's
+            // quantifier, kept for byte-exactness) only the start is pinned down
+            let increasing = pic.chunk_caps.is_empty();
+            if offs[0] != 0 || (increasing && offs.windows(2).any(|w| w[1] <= w[0])) {
                 return Some(Violation::new(
                     "C17",
                     "offsets_not_strictly_increasing",
                     format!("album_art({:?}) requested offsets {:?}", uri, offs),
                 ));
             }
+            let size = if embedded {
+                pic.embedded.as_ref().map(|e| e.data.len() as u64)
+            } else {
+                match &pic.cover {
+                    Cover::Bytes(b) => Some(b.len() as u64),
+                    _ => None,
+                }
+            };
+            if let Some(size) = size {
+                if let Some(o) = offs.iter().find(|o| **o > size) {
+                    return Some(Violation::new(
+                        "C17",
+                        "offset_beyond_size",
+                        format!(
+                            "album_art({:?}) requested offset {} of a picture of {} bytes (offsets {:?})",
+                            uri, o, size, offs
+                        ),
+                    ));
+                }
+            }
         }
         if let ArtExpect::Some(b, _) = &exp {
-            let limit = plan.binary_limit.max(1);
-            let bound = request_offsets(b.len() as u64, limit, &pic.chunk_caps).len() + 2;
-            if units.len() > bound {
+            // finitely many: strictly increasing offsets within the picture allow at most one
+            // request per byte and source; twice that where short chunks permit re-requests
+            let bound = if pic.chunk_caps.is_empty() {
+                b.len() + 3
+            } else {
+                2 * b.len() + 35
+            };
+            if reqs.len() > bound {
                 return Some(Violation::new(
                     "C17",
                     "too_many_requests",
                     format!(
                         "album_art({:?}) needed {} requests for {} bytes at chunk limit {} (bound {})",
                         uri,
-                        units.len(),
+                        reqs.len(),
                         b.len(),
-                        limit,
+                        plan.binary_limit.max(1),
                         bound
                     ),
                 ));
